@@ -58,3 +58,41 @@ def wellformed(A, out, label='out'):
     for i in range(len(out) - 1):
         res.append(('%s-monotone@%d' % (label, i), A.le(out[i][0], out[i + 1][0])))
     return res
+
+
+def run_pool_case(env, case, mode='online~', check=()):
+    """feed one case of vf/poolct.py to a dense online monitor; returns the list of per-update outputs and the assertions asked for in
+    `check`: 'shape' (every update returns a list of [time, value] pairs), 'pure' (the caller's batches are untouched afterwards),
+    'get_value' (get_value(v) after an update is the batch supplied for v)"""
+    from . import refsem
+    from .refsem import text, variables
+    A = env.A
+    f, grids, parts = case
+    f = refsem.T(f)
+    vs = sorted(variables(f))
+    s = make_spec(mode, 'out = ' + text(f), vs)
+    sigs = {v: signal(env, v, len(g), 'zero', grid=g) for v, g in zip(vs, grids)}
+    outs, res = [], []
+    for u, part in enumerate(parts):
+        batch = [[v, [list(sigs[v][i]) for i in part if i < len(sigs[v])]] for v in vs]
+        keep = [[v, [list(p) for p in b]] for v, b in batch]
+        o = s.update(*batch)
+        outs.append(o)
+        if 'shape' in check:
+            res.append(('update%d-shape' % u, A.bool(isinstance(o, list) and all(isinstance(p, (list, tuple)) and len(p) == 2 for p in o))))
+        if 'pure' in check:
+            ok = len(batch) == len(keep) and all(b[0] == k[0] and len(b[1]) == len(k[1]) for b, k in zip(batch, keep))
+            res.append(('update%d-batches-same-length' % u, A.bool(ok)))
+            if ok:
+                for b, k in zip(batch, keep):
+                    for i, (p, q) in enumerate(zip(b[1], k[1])):
+                        res.append(('update%d-%s[%d]-untouched' % (u, b[0], i), A.And(A.eq(p[0], q[0]), A.eq(p[1], q[1]))))
+        if 'get_value' in check:
+            for v, b in keep:
+                got = s.get_value(v)
+                same = isinstance(got, list) and len(got) == len(b)
+                res.append(('update%d-get_value-%s-length' % (u, v), A.bool(same)))
+                if same:
+                    for i, (p, q) in enumerate(zip(got, b)):
+                        res.append(('update%d-get_value-%s[%d]' % (u, v, i), A.And(A.eq(p[0], q[0]), A.eq(p[1], q[1]))))
+    return outs, res
